@@ -4,3 +4,5 @@ import DPProofs.Lemmas.Render
 import DPProofs.C08
 import DPProofs.C10
 import DPProofs.C07
+import DPProofs.C01
+import DPProofs.C19
